@@ -485,6 +485,7 @@ var toUnicodeTmplNew = template.Must(template.New("cmap").Funcs(template.FuncMap
 		return fmt.Sprintf("<%02x>", x)
 	},
 	"SingleChunks": chunks[ToUnicodeSingle],
+	"CSRChunks":    chunks[charcode.Range],
 	"Single": func(s ToUnicodeSingle) string {
 		val := hexString(s.Value)
 		return fmt.Sprintf("<%x> %s", s.Code, val)
@@ -509,13 +510,13 @@ begincmap
 /CMapName {{PN .MakeName}} def
 /CMapType 2 def
 /CIDSystemInfo <</Registry (Adobe) /Ordering (UCS) /Supplement 0>> def
-{{with .CodeSpaceRange -}}
+{{range CSRChunks .CodeSpaceRange -}}
 {{len .}} begincodespacerange
 {{range . -}}
 {{B .Low}} {{B .High}}
 {{end -}}
-{{end -}}
 endcodespacerange
+{{end -}}
 {{range SingleChunks .Singles -}}
 {{len .}} beginbfchar
 {{range . -}}
